@@ -63,7 +63,8 @@ def struct_shapes(tier):
 def build_specs(tier):
     shapes = struct_shapes(tier)
     lines = ['namespace rt', '', 'import other', '', 'alias Aint = Int32(min_value=0)', '', 'union Mode', '    fast', '    slow', '',
-             'struct Res', '    ok Boolean', '', 'union Uarg', '    ua', '    ub String', '']
+             'struct Res', '    ok Boolean', '', 'alias Anull = String?', '', 'struct Qarg', '    q Anull', '    r Int32', '',
+             'route rq(Qarg, Void, Void)', '', 'union Uarg', '    ua', '    ub String', '']
     routes = []      # (ns, route name, version, method suffix kind, shape index or 'union'/'void', result kind, deprecated, style)
     structs = {}     # struct name -> [(field name, kind)] in all_fields declaration order (root first)
     versions = [1, 2, 3]
@@ -375,6 +376,10 @@ def task(item):
         bi = {'shape_class': 'namespace-without-types'}
         record(check_call(u, 'noty_imp', [vals[f] for f in req0 + opt0], {}, noty.imp, 'noty', build(rt.A0, vals), None, False, False, False, bi), dict(bi, method='noty_imp'))
         record(check_call(u, 'noty_imp_v2', ['BYTES', 4], {}, noty.imp_v2, 'noty', build(other.Oarg, {'o': 4, 'm': other.Xmode.on}), 'BYTES', False, True, False, bi), dict(bi, method='noty_imp_v2'))
+        # a field whose type is an alias of a nullable type is optional: positional call with the required field first
+        bq = {'shape_class': 'alias-of-nullable-field'}
+        record(check_call(u, 'rt_rq', [5, 'qq'], {}, rt.rq, 'rt', build(rt.Qarg, {'q': 'qq', 'r': 5}), None, False, True, False, bq), dict(bq, method='rt_rq'))
+        record(check_call(u, 'rt_rq', [], {'r': 5, 'q': 'qq'}, rt.rq, 'rt', build(rt.Qarg, {'q': 'qq', 'r': 5}), None, False, True, False, bq), dict(bq, method='rt_rq'))
         record(check_call(u, 'noty_allvoid', [], {}, noty.allvoid, 'noty', None, None, False, True, False, bi), dict(bi, method='noty_allvoid'))
         record(check_call(u, 'noty_uni', [rt.Uarg.ua], {}, noty.uni, 'noty', rt.Uarg.ua, None, True, True, False, bi), dict(bi, method='noty_uni'))
         # exactly one method per route version (+ _to_file for download style)
@@ -389,7 +394,7 @@ def task(item):
             expected.add(method_name_for('rt', name, ver))
             if style == 'download':
                 expected.add(method_name_for('rt', name, ver, '_to_file'))
-        expected |= {'noty_imp', 'noty_imp_v2', 'noty_allvoid', 'noty_uni', 'rt_succ'}
+        expected |= {'noty_imp', 'noty_imp_v2', 'noty_allvoid', 'noty_uni', 'rt_succ', 'rt_rq'}
         bad = []
         if methods != expected:
             bad.append(('method-set', 'methods missing: %r; unexpected: %r' % (sorted(expected - methods)[:10], sorted(methods - expected)[:10])))
